@@ -7,7 +7,9 @@ import (
 	"fmt"
 	"io"
 	"path"
+	"strings"
 	"sync"
+	"sync/atomic"
 	"syscall"
 	"time"
 
@@ -59,7 +61,17 @@ type FS struct {
 	inner *mem.FS
 	dev   string
 	busy  sync.Mutex
+	// inactive: a scoped deviant ("<id>#<part of a test name>") outside its scope behaves like the reference
+	inactive bool
 }
+
+// Fired counts how often a deviation actually took effect in this process (its condition held where it is
+// looked at). A scoped deviant whose scenario no longer exercises the deviated behaviour never fires, and the
+// driver then has nothing to demand of the suite.
+var Fired int64
+
+// Activations counts the file systems made inside the scope of a scoped deviant.
+var Activations int64
 
 // exclusive is the "concurrent:busy" deviation: a tree-modifying call takes a millisecond (a store's
 // latency) and any other such call arriving meanwhile is refused instead of waiting.
@@ -81,7 +93,35 @@ func New(dev string) (*FS, error) {
 	return &FS{inner: fs, dev: dev}, err
 }
 
-func (f *FS) is(d string) bool { return f.dev == d }
+// NewScoped returns the deviant for a test called testName: the deviation of "<id>#<scope>" applies only where
+// testName ends in <scope> (a scenario of the suite), everywhere else the file system is the reference.
+func NewScoped(dev, testName string) (*FS, error) {
+	scope := ""
+	if i := strings.Index(dev, "#"); i >= 0 {
+		dev, scope = dev[:i], dev[i+1:]
+	}
+	fs, err := New(dev)
+	if err == nil && scope != "" {
+		if strings.HasSuffix(testName, scope) {
+			atomic.AddInt64(&Activations, 1)
+		} else {
+			fs.inactive = true
+		}
+	}
+	return fs, err
+}
+
+// is reports whether deviation d applies here; every true answer counts as the deviation taking effect.
+func (f *FS) is(d string) bool {
+	if f.inactive || f.dev != d {
+		return false
+	}
+	atomic.AddInt64(&Fired, 1)
+	return true
+}
+
+// isIf is is() for deviations that only apply under a further condition of the call at hand.
+func (f *FS) isIf(d string, cond bool) bool { return cond && f.is(d) }
 
 // utc is the reference variant "ref:utc-modtime": the right instants, reported in UTC instead of the local zone.
 func (f *FS) utc(t time.Time) time.Time {
@@ -116,7 +156,7 @@ func (f *FS) Open(name string) (hackpadfs.File, error) {
 }
 
 func (f *FS) OpenFile(name string, flag int, perm hackpadfs.FileMode) (hackpadfs.File, error) {
-	if f.is("Open:invalid-path-accepted") && !hackpadfs.ValidPath(name) {
+	if f.isIf("Open:invalid-path-accepted", !hackpadfs.ValidPath(name)) {
 		name = path.Clean(name)
 		if !hackpadfs.ValidPath(name) {
 			name = "."
@@ -128,10 +168,10 @@ func (f *FS) OpenFile(name string, flag int, perm hackpadfs.FileMode) (hackpadfs
 	if f.is("OpenFile:append-ignored") {
 		flag &^= hackpadfs.FlagAppend
 	}
-	if f.is("OpenFile:create-perm") && flag&hackpadfs.FlagCreate != 0 {
+	if f.isIf("OpenFile:create-perm", flag&hackpadfs.FlagCreate != 0) {
 		perm ^= 0111
 	}
-	if f.is("OpenFile:missing-created") && flag&hackpadfs.FlagCreate == 0 && flag&3 != 0 {
+	if f.isIf("OpenFile:missing-created", flag&hackpadfs.FlagCreate == 0 && flag&3 != 0) {
 		flag |= hackpadfs.FlagCreate
 	}
 	created := false
@@ -152,9 +192,9 @@ func (f *FS) OpenFile(name string, flag int, perm hackpadfs.FileMode) (hackpadfs
 	}
 	if err != nil {
 		switch {
-		case f.is("Open:missing-wrong-error") && errors.Is(err, hackpadfs.ErrNotExist):
+		case f.isIf("Open:missing-wrong-error", errors.Is(err, hackpadfs.ErrNotExist)):
 			err = reKind(err, hackpadfs.ErrPermission)
-		case f.is("OpenFile:dir-write-wrong-error") && errors.Is(err, hackpadfs.ErrIsDir):
+		case f.isIf("OpenFile:dir-write-wrong-error", errors.Is(err, hackpadfs.ErrIsDir)):
 			err = reKind(err, hackpadfs.ErrNotExist)
 		case f.is("Open:error-wrapped"):
 			err = fmt.Errorf("layer: %w", err)
@@ -166,7 +206,7 @@ func (f *FS) OpenFile(name string, flag int, perm hackpadfs.FileMode) (hackpadfs
 			// a prefix is allowed in this configuration, another path behind it is not: the unclean name foo/../bar
 			// reported as mnt/bar names a different file
 			err = rePath(err, "mnt/"+path.Clean(name))
-		case f.is("Open:error-path-glued") && hackpadfs.ValidPath(name):
+		case f.isIf("Open:error-path-glued", hackpadfs.ValidPath(name)):
 			err = rePath(err, "mnt"+name)
 		}
 		return nil, err
@@ -207,27 +247,27 @@ func (f *FS) Mkdir(name string, perm hackpadfs.FileMode) error {
 	switch {
 	case f.is("Mkdir:error-wrapped"):
 		err = fmt.Errorf("layer: %w", err)
-	case f.is("Mkdir:existing-wrong-error") && errors.Is(err, hackpadfs.ErrExist):
+	case f.isIf("Mkdir:existing-wrong-error", errors.Is(err, hackpadfs.ErrExist)):
 		err = reKind(err, hackpadfs.ErrNotExist)
-	case f.is("Mkdir:missing-parent-wrong-error") && errors.Is(err, hackpadfs.ErrNotExist):
+	case f.isIf("Mkdir:missing-parent-wrong-error", errors.Is(err, hackpadfs.ErrNotExist)):
 		err = reKind(err, hackpadfs.ErrExist)
 	case f.is("Mkdir:error-path"):
 		err = rePath(err, "x/"+name)
 	case f.is("ref:prefixed-paths") && hackpadfs.ValidPath(name):
 		err = rePath(err, "mnt/"+name)
-	case f.is("Mkdir:error-path-glued") && hackpadfs.ValidPath(name):
+	case f.isIf("Mkdir:error-path-glued", hackpadfs.ValidPath(name)):
 		err = rePath(err, "mnt"+name)
 	}
 	return err
 }
 
 func (f *FS) MkdirAll(name string, perm hackpadfs.FileMode) error {
-	if f.is("MkdirAll:noop") && hackpadfs.ValidPath(name) {
+	if f.isIf("MkdirAll:noop", hackpadfs.ValidPath(name)) {
 		if _, err := f.inner.Stat(name); err != nil {
 			return nil
 		}
 	}
-	if f.is("MkdirAll:drops-leaf") && hackpadfs.ValidPath(name) && name != "." {
+	if f.isIf("MkdirAll:drops-leaf", hackpadfs.ValidPath(name) && name != ".") {
 		if _, err := f.inner.Stat(name); err != nil {
 			// the parents are made, the last directory is not, and success is reported
 			return f.inner.MkdirAll(path.Dir(name), perm)
@@ -260,7 +300,7 @@ func (f *FS) Remove(name string) error {
 		}
 		return nil
 	}
-	if f.is("Remove:nonempty-refused-after-emptying") && errors.Is(err, hackpadfs.ErrNotEmpty) {
+	if f.isIf("Remove:nonempty-refused-after-emptying", errors.Is(err, hackpadfs.ErrNotEmpty)) {
 		// the right refusal, noticed only after the files inside have been deleted
 		if ents, derr := hackpadfs.ReadDir(f.inner, name); derr == nil {
 			for _, e := range ents {
@@ -273,15 +313,15 @@ func (f *FS) Remove(name string) error {
 	switch {
 	case f.is("Remove:error-wrapped"):
 		err = fmt.Errorf("layer: %w", err)
-	case f.is("Remove:nonempty-wrong-error") && errors.Is(err, hackpadfs.ErrNotEmpty):
+	case f.isIf("Remove:nonempty-wrong-error", errors.Is(err, hackpadfs.ErrNotEmpty)):
 		err = reKind(err, hackpadfs.ErrNotExist)
-	case f.is("Remove:missing-wrong-error") && errors.Is(err, hackpadfs.ErrNotExist):
+	case f.isIf("Remove:missing-wrong-error", errors.Is(err, hackpadfs.ErrNotExist)):
 		err = reKind(err, hackpadfs.ErrPermission)
 	case f.is("Remove:error-path"):
 		err = rePath(err, "x/"+name)
 	case f.is("ref:prefixed-paths") && hackpadfs.ValidPath(name):
 		err = rePath(err, "mnt/"+name)
-	case f.is("Remove:error-path-glued") && hackpadfs.ValidPath(name):
+	case f.isIf("Remove:error-path-glued", hackpadfs.ValidPath(name)):
 		err = rePath(err, "mnt"+name)
 	}
 	return err
@@ -329,17 +369,17 @@ func (f *FS) Rename(oldname, newname string) error {
 	err := f.inner.Rename(oldname, newname)
 	switch {
 	case err == nil:
-		if f.is("Rename:drops-empty-files") && oldname != newname {
+		if f.isIf("Rename:drops-empty-files", oldname != newname) {
 			// a rename-by-copy whose destination only comes into being with the first byte
 			if info, serr := f.inner.Stat(newname); serr == nil && info.Mode().IsRegular() && info.Size() == 0 {
 				_ = f.inner.Remove(newname)
 			}
 		}
-		if f.is("Rename:drops-entry") && oldname != newname {
+		if f.isIf("Rename:drops-entry", oldname != newname) {
 			// reports success, but the entry is gone under both names
 			_ = hackpadfs.RemoveAll(f.inner, newname)
 		}
-	case f.is("Rename:missing-wrong-error") && errors.Is(err, hackpadfs.ErrNotExist):
+	case f.isIf("Rename:missing-wrong-error", errors.Is(err, hackpadfs.ErrNotExist)):
 		err = reKind(err, hackpadfs.ErrExist)
 	case f.is("Rename:error-wrapped"):
 		err = fmt.Errorf("layer: %w", err)
@@ -363,14 +403,14 @@ func (i devInfo) Mode() hackpadfs.FileMode {
 	if i.fs.is(i.at + ":perm") {
 		m ^= 0111
 	}
-	if i.fs.is(i.at+":dir-as-file") && m.IsDir() {
+	if i.fs.isIf(i.at+":dir-as-file", m.IsDir()) {
 		m &^= hackpadfs.ModeDir
 	}
 	return m
 }
 func (i devInfo) IsDir() bool { return i.Mode().IsDir() }
 func (i devInfo) Size() int64 {
-	if i.fs.is(i.at+":size") && !i.FileInfo.IsDir() {
+	if i.fs.isIf(i.at+":size", !i.FileInfo.IsDir()) {
 		return i.FileInfo.Size() + 1
 	}
 	return i.FileInfo.Size()
@@ -392,13 +432,13 @@ func (f *FS) Stat(name string) (hackpadfs.FileInfo, error) {
 	info, err := f.inner.Stat(name)
 	if err != nil {
 		switch {
-		case f.is("Stat:missing-wrong-error") && errors.Is(err, hackpadfs.ErrNotExist):
+		case f.isIf("Stat:missing-wrong-error", errors.Is(err, hackpadfs.ErrNotExist)):
 			err = reKind(err, hackpadfs.ErrInvalid)
 		case f.is("Stat:error-path"):
 			err = rePath(err, "x/"+name)
 		case f.is("ref:prefixed-paths") && hackpadfs.ValidPath(name):
 			err = rePath(err, "mnt/"+name)
-		case f.is("Stat:error-path-glued") && hackpadfs.ValidPath(name):
+		case f.isIf("Stat:error-path-glued", hackpadfs.ValidPath(name)):
 			err = rePath(err, "mnt"+name)
 		}
 		return nil, err
@@ -440,7 +480,9 @@ type File struct {
 	dirPos int
 }
 
-func (f *File) is(d string) bool { return f.fs.dev == d }
+func (f *File) is(d string) bool { return f.fs.is(d) }
+
+func (f *File) isIf(d string, cond bool) bool { return f.fs.isIf(d, cond) }
 
 func (f *File) Close() error {
 	if f.closed && f.is("file.Close:second-ok") {
@@ -454,17 +496,17 @@ func (f *File) Read(p []byte) (int, error) {
 	if f.closed && f.is("file.Read:after-close-ok") {
 		return 0, io.EOF
 	}
-	if f.is("file.Read:short-forever") && len(p) > 1 {
+	if f.isIf("file.Read:short-forever", len(p) > 1) {
 		p = p[:1]
 	}
 	n, err := f.inner.Read(p)
-	if f.is("file.Read:eof-wrapped+ReadFile") && err == io.EOF {
+	if f.isIf("file.Read:eof-wrapped+ReadFile", err == io.EOF) {
 		err = &hackpadfs.PathError{Op: "read", Path: f.name, Err: io.EOF}
 	}
-	if f.is("file.Read:bytes") && n > 0 {
+	if f.isIf("file.Read:bytes", n > 0) {
 		p[0] ^= 0x20
 	}
-	if f.is("file.Read:eof-early") && n > 1 {
+	if f.isIf("file.Read:eof-early", n > 1) {
 		// swallow the last byte delivered and report the end
 		if s, ok := f.inner.(io.Seeker); ok {
 			if info, serr := f.inner.Stat(); serr == nil {
@@ -479,13 +521,13 @@ func (f *File) Read(p []byte) (int, error) {
 
 func (f *File) ReadAt(p []byte, off int64) (int, error) {
 	n, err := hackpadfs.ReadAtFile(f.inner, p, off)
-	if f.is("file.ReadAt:bytes") && n > 0 {
+	if f.isIf("file.ReadAt:bytes", n > 0) {
 		p[n-1] ^= 0x20
 	}
-	if f.is("file.ReadAt:eof-wrapped") && err == io.EOF {
+	if f.isIf("file.ReadAt:eof-wrapped", err == io.EOF) {
 		err = &hackpadfs.PathError{Op: "readat", Path: f.name, Err: io.EOF}
 	}
-	if f.is("file.ReadAt:missing-eof") && err == io.EOF {
+	if f.isIf("file.ReadAt:missing-eof", err == io.EOF) {
 		err = nil
 	}
 	return n, err
@@ -507,7 +549,7 @@ func (f *File) Write(p []byte) (int, error) {
 			_, _ = hackpadfs.WriteFile(f.inner, p)
 		}
 		return n, err
-	case f.is("file.Write:corrupts") && len(p) > 0:
+	case f.isIf("file.Write:corrupts", len(p) > 0):
 		q := append([]byte(nil), p...)
 		q[len(q)-1] ^= 0x20
 		return hackpadfs.WriteFile(f.inner, q)
@@ -517,9 +559,9 @@ func (f *File) Write(p []byte) (int, error) {
 
 func (f *File) WriteAt(p []byte, off int64) (int, error) {
 	switch {
-	case f.is("file.WriteAt:noop") && off >= 0 && f.flag&3 != 0:
+	case f.isIf("file.WriteAt:noop", off >= 0 && f.flag&3 != 0):
 		return len(p), nil
-	case f.is("file.WriteAt:offset") && off >= 0:
+	case f.isIf("file.WriteAt:offset", off >= 0):
 		off++
 	}
 	return hackpadfs.WriteAtFile(f.inner, p, off)
@@ -527,7 +569,7 @@ func (f *File) WriteAt(p []byte, off int64) (int, error) {
 
 func (f *File) Seek(offset int64, whence int) (int64, error) {
 	switch {
-	case f.is("file.Seek:noop") && whence >= 0 && whence <= 2 && !(whence == io.SeekStart && offset < 0):
+	case f.isIf("file.Seek:noop", whence >= 0 && whence <= 2 && !(whence == io.SeekStart && offset < 0)):
 		cur, err := hackpadfs.SeekFile(f.inner, 0, io.SeekCurrent)
 		_ = err
 		// report the requested position without moving
@@ -537,7 +579,7 @@ func (f *File) Seek(offset int64, whence int) (int64, error) {
 		}
 		_, _ = hackpadfs.SeekFile(f.inner, cur, io.SeekStart)
 		return want, nil
-	case f.is("file.Seek:end-off-by-one") && whence == io.SeekEnd:
+	case f.isIf("file.Seek:end-off-by-one", whence == io.SeekEnd):
 		offset++
 	case f.is("file.Seek:negative-accepted"):
 		if n, err := hackpadfs.SeekFile(f.inner, offset, whence); err != nil {
@@ -558,10 +600,10 @@ func (f *File) Stat() (hackpadfs.FileInfo, error) {
 }
 
 func (f *File) Truncate(size int64) error {
-	if f.is("file.Truncate:noop") && size >= 0 && f.flag&3 != 0 {
+	if f.isIf("file.Truncate:noop", size >= 0 && f.flag&3 != 0) {
 		return nil
 	}
-	if f.is("file.Truncate:negative-accepted") && size < 0 {
+	if f.isIf("file.Truncate:negative-accepted", size < 0) {
 		return nil
 	}
 	return hackpadfs.TruncateFile(f.inner, size)
@@ -587,13 +629,13 @@ func (f *File) ReadDir(n int) ([]hackpadfs.DirEntry, error) {
 	first := f.dirPos == 0
 	f.dirPos += len(ents)
 	switch {
-	case f.is("file.ReadDir:drops-first") && first && len(ents) > 0:
+	case f.isIf("file.ReadDir:drops-first", first && len(ents) > 0):
 		ents = ents[1:]
-	case f.is("file.ReadDir:duplicates-first") && first && len(ents) > 0:
+	case f.isIf("file.ReadDir:duplicates-first", first && len(ents) > 0):
 		ents = append([]hackpadfs.DirEntry{ents[0]}, ents...)
-	case f.is("file.ReadDir:never-eof") && err == io.EOF:
+	case f.isIf("file.ReadDir:never-eof", err == io.EOF):
 		err = nil
-	case f.is("file.ReadDir:wrong-kind") && len(ents) > 0:
+	case f.isIf("file.ReadDir:wrong-kind", len(ents) > 0):
 		ents = append([]hackpadfs.DirEntry{devEntry{ents[0], true}}, ents[1:]...)
 	}
 	return ents, err
